@@ -34,7 +34,7 @@ type C04Scenario struct {
 const storeChainLen = 420
 
 var c04OpKinds = []string{
-	"append_next", "append_next", "append_next", "append_gap", "append_fill", "append_fill", "append_below", "append_repeat",
+	"append_next", "append_next", "append_next", "append_gap", "append_fill", "append_fill", "append_below", "append_repeat", "append_empty",
 	"sync", "settle", "settle", "delete_prefix", "delete_suffix", "delete_whole", "restart_new", "restart_stopstart", "range",
 }
 
@@ -235,6 +235,12 @@ func runC04(t *testing.T, s C04Scenario) (res Result) {
 				}
 				if hadGap && e.m.H > oldH && e.m.stored[oldH+1] && e.m.H > oldH+uint64(len(hs)) {
 					gapFilled = true
+				}
+			case "append_empty":
+				// an Append without headers (callers forward whatever a peer returned) is a no-op
+				if err := e.st.Append(ctx); err != nil {
+					fail("%s: Append without headers failed: %v", tag, err)
+					return
 				}
 			case "sync":
 				if settleCheck(tag, true) {
